@@ -426,6 +426,52 @@ example : extract true true
     = some ([⟨1/4, 1/4, 5/2, 1/4⟩, ⟨3/4, 1/4, 5/2, 1/4⟩, ⟨3/2, 1/2, 4, 1/2⟩, ⟨1/2, 1/2, 4, 1/2⟩], false) := by
   decide +kernel
 
+/-! ### `fit_binding_times`: options left out, error branches, what reaches the model -/
+
+/-- options left out (`None`): `fit_binding_times(n, exclude_ambiguous_dwells=…)` behaves exactly like
+    `observed_minimum=True, discrete_model=False` — the LEGACY minimum-time mode and the continuous model — except
+    for the two warnings it issues. -/
+theorem fit_binding_defaults (nComp : Nat) (excl : Bool) (tracks : List Track) :
+    fitBindingTimes nComp excl none none tracks
+      = (fitBindingTimes nComp excl (some true) (some false) tracks).map
+          fun c => { c with warnObservedMin := true, warnDiscrete := true } :=
+  fitBindingTimes_defaults nComp excl tracks
+
+/-- derive → query through the public entry point: whenever `fit_binding_times(…, observed_minimum=False, …)` gets as
+    far as constructing the model, the group is not empty, `n_components ∈ {1, 2}`, at least one row is handed over,
+    the rows are (up to stacking order) exactly one per qualifying track with the track duration, the track's OWN
+    minimum observable duration, the kymograph's total duration and the line time, the zero-dwell warning is issued
+    exactly when a non-excluded track has zero duration, and the time step reaches the model iff `discrete_model` is
+    `True`. -/
+theorem fit_binding_rows_spec (nComp : Nat) (excl : Bool) (disc : Option Bool) (tracks : List Track)
+    (hc : Consistent tracks) (c : FitCall)
+    (h : fitBindingTimes nComp excl (some false) disc tracks = .ok c) :
+    tracks ≠ [] ∧ (nComp = 1 ∨ nComp = 2) ∧ c.rows ≠ []
+    ∧ (c.rows.map some).Perm ((tracks.filter (keep excl)).map specRow?)
+    ∧ c.removedZeros = tracks.any (zeroDwell excl)
+    ∧ c.stepHanded = disc.getD false := by
+  obtain ⟨h1, h2, h3, hext, _, h6, _, _⟩ := fitBindingTimes_ok nComp excl (some false) disc tracks c h
+  simp only [Option.getD_some] at hext
+  exact ⟨h1, h2, h3, extraction_spec excl tracks hc c.rows c.removedZeros hext,
+    extraction_removed_flag excl false tracks c.rows c.removedZeros hext, h6⟩
+
+/-- … and with `observed_minimum` left out (or `True`) the minimum observation time handed over is the shortest kept
+    dwell of the track's kymograph, not the track's own minimum (the documented legacy behaviour). -/
+theorem fit_binding_rows_legacy (nComp : Nat) (excl : Bool) (disc : Option Bool) (tracks : List Track)
+    (hc : Consistent tracks) (c : FitCall)
+    (h : fitBindingTimes nComp excl none disc tracks = .ok c) :
+    c.observedMin = true ∧ c.warnObservedMin = true
+    ∧ c.rows.Perm ((tracks.filter (keep excl)).map (specRowOm excl tracks)) := by
+  obtain ⟨_, _, _, hext, h5, _, h7, _⟩ := fitBindingTimes_ok nComp excl none disc tracks c h
+  simp only [Option.getD_none] at hext h5
+  exact ⟨h5, h7, extraction_spec_observed_minimum excl tracks hc c.rows c.removedZeros hext⟩
+
+example : fitBindingTimes 1 true none none [⟨0, 10, 1/4, [1, 2, 3], some (1/4)⟩, ⟨0, 10, 1/4, [4, 4], none⟩]
+      = .ok ⟨[⟨1/2, 1/2, 5/2, 1/4⟩], true, true, false, true, true⟩
+    ∧ fitBindingTimes 3 true none none [⟨0, 10, 1/4, [1, 2, 3], some (1/4)⟩] = .error "ValueError"
+    ∧ fitBindingTimes 1 true (some false) (some true) [⟨0, 10, 1/4, [1, 2, 3], some (1/4)⟩]
+      = .ok ⟨[⟨1/2, 1/4, 5/2, 1/4⟩], false, false, true, false, false⟩ := by decide +kernel
+
 /-! ## The analytic gradient (ext) -/
 
 /-- ext `gradient_continuous_correct` (amplitudes): for the continuous model, any number of components, any
